@@ -355,15 +355,25 @@ func (in *Interp) RenderPage(name string, data map[string]Value) (string, error)
 	}
 	var use *Use
 	inserts := map[string]Insert{}
-	for _, s := range page.Stmts {
-		switch n := s.(type) {
-		case Use:
-			u := n
-			use = &u
-		case Insert:
-			inserts[n.Name] = n
+	// @use and @insert are collected wherever they are written in the page
+	var collect func([]Stmt)
+	collect = func(ss []Stmt) {
+		for _, s := range ss {
+			switch n := s.(type) {
+			case Use:
+				u := n
+				use = &u
+			case Insert:
+				inserts[n.Name] = n
+			case If:
+				for _, b := range n.Bodies {
+					collect(b)
+				}
+				collect(n.Else)
+			}
 		}
 	}
+	collect(page.Stmts)
 	if use == nil {
 		return in.Run(page.Stmts, data)
 	}
